@@ -12,6 +12,7 @@ import Driver.Gz
 import Driver.Misc
 import Driver.Conform
 import Driver.ConformRec
+import Driver.ConformRecovery
 open OAP Driver
 
 def badOp (line : String) : String := s!"bad-op {line}"
@@ -46,7 +47,7 @@ def dispatch (op : String) (a : Args) : Option String :=
   | "hs.unpack" => opHsUnpack a
   | "hs.ctx" => opHsCtx a
   | "proto.get" => opProtoGet a
-  | _ => ((Driver.metaOps ++ Driver.frameOps ++ Driver.streamOps ++ Driver.gzOps ++ Driver.miscOps ++ Driver.reqOps ++ Driver.conformOps ++ Driver.conformRecOps).find? (·.1 == op)).bind (fun f => f.2 a)
+  | _ => ((Driver.metaOps ++ Driver.frameOps ++ Driver.streamOps ++ Driver.gzOps ++ Driver.miscOps ++ Driver.reqOps ++ Driver.conformOps ++ Driver.conformRecOps ++ Driver.conformRecoveryOps).find? (·.1 == op)).bind (fun f => f.2 a)
 
 /-- per-connection streaming state kept across lines (C11 histories): context id ↦ (parked header, ring) -/
 abbrev DState := List (Nat × (Option Header × Ring))
